@@ -82,6 +82,29 @@ def run (ctx):
              "`%s` can be the frame's parse-time copy: after a set-field / VLAN action rewrote the frame (packet-out ... output:TABLE, then a miss) the packet-in describes the old bytes - its data is not a prefix of the stored "
              "frame and total_len is the old length" % norm(stale[0])[:60], (sw.module, stale[0]) if stale else f_, 'D4')
   packet_truth_tests(ctx, repo, sw, 'D3')
+  # ---- the pool as its own operations see it: a history evaluated from the constructor's state (independent of how the pool is kept)
+  hist_ok, pool_attrs = pool_history(ctx, repo, sw, alloc, use, 'D2')
+  init_ = sw.methods.get('__init__')
+  init_buf = [v for t, v, st, k in q.stores_in(init_.node) if norm(t) == 'self.' + BUF] if init_ is not None else []
+  # (the list form may come with plain integer companions - a scan hint, a counter -; another container beside it is another form)
+  others_ = [v for t, v, st, k in q.stores_in(init_.node) if isinstance(t, ast.Attribute) and norm(t.value) == 'self' and t.attr in pool_attrs - {BUF, 'max_buffers'}] if init_ is not None else []
+  list_repr = len(init_buf) == 1 and isinstance(init_buf[0], ast.List) and not init_buf[0].elts and all(isinstance(v, ast.Constant) and isinstance(v.value, int) for v in others_)
+  if not list_repr:
+    # another representation of the pool (a map of occupied slots with a counter, parallel lists, ...): the rules below speak about
+    # the list-with-free-holes form and do not apply; the history must then have decided the pool's behaviour completely
+    ctx.floor('pool kept in another representation (%s): history decided' % sorted(pool_attrs), 1 if hist_ok is not None else 0, 1)
+    owners = {alloc.qual, use.qual}
+    for m in repo.modules.values():
+      for c in list(m.classes.values()):
+        for f in c.methods.values():
+          for a_ in sorted(pool_attrs - {'max_buffers'}):
+            if a_ not in m.src: continue
+            for kind, site in q.mutations_of_attr(f.node, a_):
+              ok_ = f.qual in owners or (f.name == '__init__' and kind == 'rebind' and f.cls is not None and sw in f.cls.mro())
+              ctx.ob('R-OWN', f, "%s %s" % (kind, a_), ok_, "owner method / constructor" if ok_ else
+                     "the pool's state is written outside the allocator/use-and-free pair: ids handed to the controller may stop identifying exactly one stored packet", (m, site), 'D1')
+    _tail(ctx, repo, sw, use, spi)
+    return
   # ---- D1 ownership -------------------------------------------------------
   writers = 0
   allowed = {alloc.qual, use.qual}
@@ -371,6 +394,9 @@ def run (ctx):
            "the slot is cleared only on paths that emitted the packet" if good else
            "slot is cleared on a path that did not emit its packet (packet lost)", (use.module, s), 'D3')
 
+  _tail(ctx, repo, sw, use, spi)
+
+def _tail (ctx, repo, sw, use, spi):
   # ---- D5 a flow-mod that names a buffer always uses it once its command was dispatched ---------------------------
   rxf = sw.find_method('_rx_flow_mod')
   if rxf is not None:
@@ -412,6 +438,102 @@ def run (ctx):
       ctx.ob('R-AGREE', sc, "set-config stores the miss length it was given", not wrong_, "0, 64 and 0xffff kept" if not wrong_ else
              "set_config(miss_send_len=%s) leaves self.miss_send_len = %s: a controller that asks for no data in buffered packet-ins gets the default amount" % wrong_[0], sc, 'D4')
   packet_in_rules(ctx, repo, spi)
+
+def pool_history (ctx, repo, sw, alloc, use, clause):
+  """The pool driven through a history by evaluation of its own two operations, starting from the state the constructor sets up
+  (max_buffers = 2): allocate A, B -> two distinct ids; a third allocation is refused; using A's id emits A once, a second use
+  emits nothing; the freed room is handed out again with an id that is not B's; B and the newcomer are still emitted by their ids;
+  ids nobody was given emit nothing and disturb nothing.  Returns (True/False/None = not evaluable, attributes that make up the pool)."""
+  import copy as _copy
+  def self_attrs (fn):
+    out = set()
+    for n in ast.walk(fn.node):
+      if isinstance(n, ast.Attribute) and isinstance(n.value, ast.Name) and n.value.id == 'self': out.add(n.attr)
+    return out
+  meths = set(m for c in sw.mro() for m in c.methods)
+  attrs = set(a for a in (self_attrs(alloc) | self_attrs(use)) if a not in meths and a not in ('log', 'name', 'dpid'))
+  init = sw.methods.get('__init__')
+  state = {}
+  if init is not None:
+    e0 = q.Env(dict((p_, 2) for p_ in init.params if p_ == 'max_buffers'))
+    for t, v, st, k in q.stores_in(init.node, nested=False):
+      if isinstance(t, ast.Attribute) and norm(t.value) == 'self' and t.attr in attrs and k == 'assign':
+        try:
+          val = q.eval_env2(repo, sw.module, v, e0, sw)
+          if val is not q.OPAQUE: state['self.' + t.attr] = val
+        except Exception: pass
+  state['self.max_buffers'] = 2
+  pool = set(k[5:] for k in state)
+  ga, gu = q.cfg_of(alloc), q.cfg_of(use)
+  is_log = lambda e: isinstance(e, ast.Call) and isinstance(e.func, ast.Attribute) and call_name(e) in ('warn', 'warning', 'debug', 'info', 'error', 'msg') and 'log' in norm(e.func.value)
+  class Und(Exception): pass
+  def keep (e_): return dict((k, _copy.deepcopy(e_.exact[k])) if k in e_.exact else (_ for _ in ()).throw(Und()) for k in state)
+  def do_alloc (st, pkt, port):
+    env = q.Env(dict(_copy.deepcopy(st), **{alloc.params[1]: pkt, (alloc.params[2] if len(alloc.params) > 2 else 'in_port'): port}), [(is_log, None)])
+    res = q.paths_under(repo, alloc.module, ga, env, ga.entry, [n for n in ga.nodes if n.kind == 'return'] + [ga.exit], sw, limit=200)
+    if len(res) != 1: raise Und()
+    p_, e_ = res[0]; last = p_[-1]
+    rv = q.eval_env2(repo, alloc.module, last.ast.value, e_, sw) if last.kind == 'return' and last.ast.value is not None else None
+    if not isinstance(rv, (int, type(None))) or isinstance(rv, bool): raise Und()
+    return rv, keep(e_)
+  def do_use (st, bid):
+    emitted = []
+    def hook (call, env=None): return (True, None) if call_name(call) == '_process_actions_for_packet' else (False, None)
+    def on_node (n, e):
+      for c in q.node_calls(n):
+        if call_name(c) == '_process_actions_for_packet' and len(c.args) >= 3:
+          try: emitted.append((q.eval_env2(repo, use.module, c.args[1], e, sw), q.eval_env2(repo, use.module, c.args[2], e, sw)))
+          except Exception: emitted.append('?')
+    env = q.Env(dict(_copy.deepcopy(st), **{use.params[2]: bid, use.params[1]: 'ACTS'}), [(is_log, None)], hook)
+    res = q.paths_under(repo, use.module, gu, env, gu.entry, [gu.exit], sw, limit=60, on_node=on_node)
+    if len(res) != 1 or '?' in emitted: raise Und()
+    return emitted, keep(res[0][1])
+  wrong = []
+  try:
+    a, s1 = do_alloc(state, 'A', 1); b, s2 = do_alloc(s1, 'B', 2); c, s3 = do_alloc(s2, 'C', 3)
+    if a is None or b is None or a == b: wrong.append("two allocations from an empty pool of size 2 give ids %r and %r" % (a, b))
+    if c is not None: wrong.append("a third allocation from a pool of size 2 is not refused (id %r): more packets are stored than max_buffers allows" % (c,))
+    if not wrong:
+      e1, s4 = do_use(s3, a); e2, s5 = do_use(s4, a)
+      if e1 != [('A', 1)]: wrong.append("using id %r (packet A, port 1) emits %r" % (a, e1))
+      if e2 != []: wrong.append("using id %r a second time emits %r: a buffer is released more than once" % (a, e2))
+      d, s6 = do_alloc(s5, 'D', 4)
+      if d is None: wrong.append("after A was released an allocation is still refused: the freed slot is never handed out again (the pool leaks)")
+      elif d == b: wrong.append("the id %r handed out for D is B's, which is still stored: one id for two packets" % (d,))
+      for bogus in sorted(set([0, -1, 99, max(a, b) + 1, -2]) - set([a, b, d])):
+        eb, sb = do_use(s6, bogus)
+        if eb != []: wrong.append("id %r was never handed out but using it emits %r" % (bogus, eb))
+        s6 = sb
+      eB, s7 = do_use(s6, b)
+      if eB != [('B', 2)]: wrong.append("using B's id %r emits %r" % (b, eB))
+      if d is not None and d != b:
+        eD, s8 = do_use(s7, d)
+        if eD != [('D', 4)]: wrong.append("using D's id %r emits %r" % (d, eD))
+        x, s9 = do_alloc(s8, 'E', 5); y, s10 = do_alloc(s9, 'F', 6)
+        if x is None or y is None or x == y: wrong.append("with every buffer released two allocations give ids %r and %r" % (x, y))
+    if not wrong:
+      # a pool of three, released out of order: all the room that was released is available again, and no more than that
+      st3 = dict(state); st3['self.max_buffers'] = 3
+      i1, t1 = do_alloc(st3, 'A', 1); i2, t2 = do_alloc(t1, 'B', 2); i3, t3 = do_alloc(t2, 'C', 3)
+      if None in (i1, i2, i3) or len(set([i1, i2, i3])) != 3: wrong.append("three allocations from an empty pool of size 3 give ids %r, %r, %r" % (i1, i2, i3))
+      else:
+        e_, t4 = do_use(t3, i1); e_, t5 = do_use(t4, i3)
+        j1, t6 = do_alloc(t5, 'D', 4); j2, t7 = do_alloc(t6, 'E', 5); j3, t8 = do_alloc(t7, 'F', 6)
+        if j1 is None or j2 is None or j1 == j2 or i2 in (j1, j2):
+          wrong.append("pool of 3 with ids %r and %r released (in that order) and %r still stored: the next two allocations give %r and %r - released room is not handed out again (the pool shrinks until every packet-in goes out unbuffered) or an id in use is given twice" % (i1, i3, i2, j1, j2))
+        elif j3 is not None: wrong.append("pool of 3, full again: a further allocation is not refused (id %r)" % (j3,))
+        else:
+          eB, t9 = do_use(t8, i2)
+          if eB != [('B', 2)]: wrong.append("B's id %r emits %r after the released slots were reused" % (i2, eB))
+  except Und:
+    ctx.undecided('R-AGREE', alloc, "pool history: ids are unique among stored packets, each is usable exactly once, the pool is bounded and its room is reused", "a step of the history is not evaluable", alloc, clause)
+    return None, pool
+  except Exception as ex:
+    ctx.undecided('R-AGREE', alloc, "pool history: ids are unique among stored packets, each is usable exactly once, the pool is bounded and its room is reused", "a step of the history is not evaluable (%s)" % type(ex).__name__, alloc, clause)
+    return None, pool
+  ctx.ob('R-AGREE', alloc, "pool history: ids are unique among stored packets, each is usable exactly once, the pool is bounded and its room is reused", not wrong,
+         "alloc A, B, (C refused), use A twice, alloc D, bogus ids, use B, D, alloc E, F - from the constructor's state with max_buffers = 2" if not wrong else wrong[0], alloc, clause)
+  return (not wrong), pool
 
 def allocator_samples (ctx, repo, sw, alloc, g, clause):
   # the allocator by evaluation on sample pools (X, Y occupied slots): which id comes back and what the pool looks like afterwards
